@@ -550,7 +550,8 @@ class CHECK(vlib.Check):
                 "arbitrary what-codes and field types, real regex / QueryFilter evaluation of hostile patterns and archives, parameters other "
                 "than subscriptions, client-to-client Messages, ordered indices, keep-alive, reply encoding, sockets and select.")
     premises = ["theorems (Properties_C07.v): handler/step/run totality with fuel linear in the heaviest queued Message a jettison pass "
-                "meets (handler_fuel is `_partial`: no polynomial bound of that weight in the INITIAL state), fuelled run = meaning for any "
+                "meets, and that weight bounded by a cubic polynomial in (command size, nodes, node weight, sessions, items held) of the state "
+                "the command arrives in (handler_fuel; premise: distinct session ids and node paths), fuelled run = meaning for any "
                 "fuel, witness_ping_answered (+_fuel, +_any_fuel) for every history of other sessions' events, jettison_refuted (F4), "
                 "NodeChangedAux / RemoveChild / DoTraversal fuel adequacy, what-code dispatch coverage over the regenerated constants",
                 "MatchLaws-free: the fuel theorems hold for ANY clause matcher and filter (class MatchOps is a parameter); termination of "
